@@ -328,6 +328,10 @@ EITHER = {
     "cumsum_last": (lambda t, u: tn.cumsum(t, t.dim() - 1), lambda a, b: np.cumsum(a, axis=-1)),
     "flip": (lambda t, u: tn.flip(t, 0), lambda a, b: np.flip(a, axis=1)),
     "repeat1": (lambda t, u: t.repeat(*([1] * t.dim())), lambda a, b: a),
+    "repeat2": (lambda t, u: t.repeat(*([2] + [1] * (t.dim() - 1))), lambda a, b: np.tile(a, [1, 2] + [1] * (a.ndim - 2))),
+    "squeeze": (lambda t, u: tn.squeeze(t), lambda a, b: np.squeeze(a)),
+    "ttm": (lambda t, u: tn.ttm(t, torch.arange(t.shape[0] * 2 * t.shape[1], dtype=torch.float64).reshape(t.shape[0], 2, t.shape[1]) - 3, dim=0),
+            lambda a, b: np.einsum("bji,bi...->bj...", np.arange(a.shape[0] * 2 * a.shape[1], dtype=np.float64).reshape(a.shape[0], 2, a.shape[1]) - 3, a)),
 }
 
 
@@ -422,9 +426,9 @@ class Prop:
         for N in (3, 4):
             for name in NAMED:
                 mk("torch", a=rand_batch_json(rng, rB(), rshape(N), NAMED[name](N), maxr=3 if N == 3 else 2))
-            for _ in range(25 if quick else 300):
+            for _ in range(75 if quick else 900):
                 mk("torch", a=rand_batch_json(rng, rB(), rshape(N), maxr=3 if N == 3 else 2))
-        for _ in range(8 if quick else 60):
+        for _ in range(24 if quick else 180):
             B = rng.randint(2, 4); N = rng.randint(2, 3)
             mk("torch", {"special": "zero_elem"}, a=rand_batch_json(rng, B, rshape(N), zero_elem=rng.randrange(B)))
             mk("torch", {"special": "same_elems"}, a=rand_batch_json(rng, B, rshape(N), same_elems=True))
@@ -437,20 +441,23 @@ class Prop:
             return np.array([[rng.randint(-3, 3) for _ in range(int(np.prod(shape)))] for _ in range(B)]).reshape([B] + shape).tolist()
 
         def construct_case(kw_kind):
-            for attempt in range(20):
+            want_clean = rng.random() < 0.8      # most cases: no kept null singular value (open finding round-tt-null)
+            want_trunc = rng.random() < 0.5
+            for attempt in range(40):
                 B = rB(); N = rng.randint(2, 4); shape = rshape(N, 1, 3 if N < 4 else 2)
                 lowrank = rng.random() < 0.3
                 X = dense_stack(B, shape, lowrank)
                 kw = {}
                 if kw_kind in ("tt", "both"):
-                    kw["ranks_tt"] = rng.randint(1, 4) if rng.random() < 0.6 else [rng.randint(1, 4) for _ in range(N - 1)]
+                    kw["ranks_tt"] = rng.randint(1, 3) if rng.random() < 0.6 else [rng.randint(1, 4) for _ in range(N - 1)]
                 if kw_kind in ("tucker", "both"):
                     kw["ranks_tucker"] = rng.randint(1, 3) if rng.random() < 0.6 else [rng.randint(1, 3) for _ in range(N)]
                 if kw_kind == "eps":
                     kw["eps"] = rng.choice([1e-10, 1e-3])
                 alg = "eig" if (kw_kind in ("tt", "tucker", "both") and rng.random() < 0.25) else "svd"
                 info = self._construct_info(X, kw)
-                if info["tie"] and attempt < 19:
+                if attempt < 39 and (info["tie"] or (want_clean and info["null_kept"]) or
+                                     (want_trunc and kw_kind in ("tt", "tucker", "both") and not info["truncating"])):
                     continue
                 mk("construct", {"B": B, "N": N, "shape": "x".join(map(str, shape)), "limits": kw_kind, "algorithm": alg,
                                  "tie": info["tie"], "null_kept": info["null_kept"], "truncating": info["truncating"],
@@ -459,14 +466,24 @@ class Prop:
                 return
 
         for kw_kind, n in (("none", 40), ("tt", 70), ("tucker", 50), ("both", 40), ("eps", 10)):
-            for _ in range(n if quick else n * 8):
+            for _ in range(n * 3 if quick else n * 24):
                 construct_case(kw_kind)
-        for _ in range(15 if quick else 100):     # CP-ALS on stacks of exactly rank-1 elements
-            B = rB(); N = rng.randint(2, 3); shape = rshape(N)
-            a = rand_batch_json(rng, B, shape, [("cp", False)] * N, maxr=1, lo=1, hi=3)
+        for _ in range(120 if quick else 900):     # CP-ALS on stacks of exactly rank-1 elements: exact recovery
+            B = rB(); N = rng.randint(2, 4); shape = rshape(N, 1, 4 if N < 4 else 3)
+            a = rand_batch_json(rng, B, shape, [("cp", False)] * N, maxr=1, lo=-2 if rng.random() < 0.5 else 1, hi=3)
             mk("construct", {"B": B, "N": N, "shape": "x".join(map(str, shape)), "limits": "cp1", "algorithm": "svd",
-                             "tie": False, "null_kept": False, "truncating": False, "lowrank": True},
+                             "tie": False, "null_kept": False, "truncating": False, "lowrank": True, "kf": ""},
                X=dense_b(a).astype(int).tolist(), kw={"ranks_cp": 1}, algorithm="svd")
+        for _ in range(90 if quick else 600):     # CP-ALS with rank 2 on B copies of one element (same ALS trajectory
+            B = rB(); N = rng.randint(2, 3); shape = rshape(N, 2, 4)   # as the ordinary constructor on that element)
+            a = rand_batch_json(rng, B, shape, [("cp", False)] * N, maxr=2, same_elems=True)
+            if rng.random() < 0.5:
+                X = dense_b(a).astype(int).tolist()
+            else:
+                X = [np.array([rng.randint(-3, 3) for _ in range(int(np.prod(shape)))]).reshape(shape).tolist()] * B
+            mk("construct", {"B": B, "N": N, "shape": "x".join(map(str, shape)), "limits": "cp2", "algorithm": "svd",
+                             "tie": False, "null_kept": False, "truncating": False, "lowrank": True, "kf": ""},
+               X=X, kw={"ranks_cp": 2}, algorithm="svd")
 
         # ---- 3. binary operations on format pairs
         k = 0
@@ -484,21 +501,28 @@ class Prop:
                         B = rB(); shape = rshape(N, 1, 3 if N == 3 else 2)
                         mk(op, a=rand_batch_json(rng, B, shape, NAMED[n1](N), maxr=2),
                            b=rand_batch_json(rng, B, shape, NAMED[n2](N), maxr=3 if N == 3 else 2)); k += 1
-            for _ in range(40 if quick else 500):
+            for _ in range(120 if quick else 1500):
                 B = rB(); shape = rshape(N, 1, 3 if N == 3 else 2)
                 mk(bops[k % 3], a=rand_batch_json(rng, B, shape, maxr=2), b=rand_batch_json(rng, B, shape, maxr=3 if N == 3 else 2)); k += 1
-        for _ in range(10 if quick else 60):
+        for _ in range(120 if quick else 900):     # both operands with small Tucker ranks on larger modes: factor-level product/sum
+            N = rng.randint(2, 3); B = rB(); shape = rshape(N, 3, 5)
+            ka = [(rng.choice(["tt", "cp"]), rng.random() < 0.8) for _ in range(N)]
+            kb = [(rng.choice(["tt", "cp"]), rng.random() < 0.8) for _ in range(N)]
+            mk(bops[k % 2], {"special": "small_tucker"}, a=rand_batch_json(rng, B, shape, ka, maxr=2, maxs=2),
+               b=rand_batch_json(rng, B, shape, kb, maxr=2, maxs=2)); k += 1
+        for _ in range(30 if quick else 180):
             B = rng.randint(2, 4); shape = rshape(rng.randint(2, 3))
             mk(bops[k % 3], {"special": "zero_elem"}, a=rand_batch_json(rng, B, shape, zero_elem=rng.randrange(B)),
                b=rand_batch_json(rng, B, shape)); k += 1
         # operand mismatch: unequal batch sizes must raise; batch (op) non-batch raises or broadcasts correctly
-        for _ in range(12 if quick else 60):
+        for _ in range(36 if quick else 180):
             shape = rshape(rng.randint(2, 3)); B = rng.randint(1, 3)
             kinds = anyfmt(len(shape))
             mk(bops[k % 2], {"special": "batch_size_mismatch"}, a=rand_batch_json(rng, B, shape, kinds),
                b=rand_batch_json(rng, B + rng.randint(1, 2), shape, kinds)); k += 1
             nb = rand_tensor_json(rng, shape, kinds)
-            mk("mixed", {"special": "nonbatch_operand", "bop": bops[k % 2], "side": "LR"[k % 2]},
+            mk("mixed", {"special": "nonbatch_operand", "bop": bops[k % 2], "side": "LR"[k % 2],
+                         "kf": "mul-mixed-batch" if bops[k % 2] == "mul" else ""},
                a=rand_batch_json(rng, B, shape, kinds), b=nb, bop=bops[k % 2], side="LR"[k % 2])
 
         # ---- 4. scalar operations
@@ -507,7 +531,7 @@ class Prop:
         sops = list(SCAL)
         for c in scalars:
             for sk in skinds:
-                for _ in range(2 if quick else 8):
+                for _ in range(6 if quick else 24):
                     op = sops[k % len(sops)]; k += 1
                     if op == "div" and c == 0:
                         op = "smul"
@@ -521,20 +545,23 @@ class Prop:
 
         # ---- 5. rounding
         def round_case(op):
-            for attempt in range(20):
+            want_clean = rng.random() < 0.8
+            want_trunc = rng.random() < 0.5
+            for attempt in range(40):
                 N = rng.randint(2, 4); B = rB(); shape = rshape(N, 1, 3 if N < 4 else 2)
-                a = rand_batch_json(rng, B, shape, anyfmt(N), maxr=3 if N < 4 else 2,
+                a = rand_batch_json(rng, B, shape, anyfmt(N), maxr=3 if N < 4 else 2, lo=-3, hi=3,
                                     zero_elem=rng.randrange(B) if rng.random() < 0.08 else None)
                 r = rng.random()
                 n_r = N - 1 if op == "round_tt" else N
-                if r < 0.35 or op == "round":
+                if r < 0.25 or op == "round":
                     rmax = None
-                elif r < 0.7:
-                    rmax = rng.randint(1, 3)
+                elif r < 0.65:
+                    rmax = rng.randint(1, 2)
                 else:
                     rmax = [rng.randint(1, 3) for _ in range(n_r)]
                 info = self._round_info(a, op, rmax)
-                if info["tie"] and attempt < 19:
+                if attempt < 39 and (info["tie"] or (want_clean and info["null_kept"]) or
+                                     (want_trunc and rmax is not None and not info["truncating"])):
                     continue
                 alg = "eig" if rng.random() < 0.2 and op != "round" else "svd"
                 mk(op, {"rmax": "none" if rmax is None else ("int" if isinstance(rmax, int) else "list"), "tie": info["tie"],
@@ -543,16 +570,16 @@ class Prop:
                 return
 
         for op, n in (("round_tt", 110), ("round_tucker", 80), ("round", 10)):
-            for _ in range(n if quick else n * 8):
+            for _ in range(n * 3 if quick else n * 24):
                 round_case(op)
 
         # ---- 6. orthogonalisation
-        for _ in range(70 if quick else 600):
+        for _ in range(210 if quick else 1800):
             N = rng.randint(2, 4)
             a = rand_batch_json(rng, rB(), rshape(N, 1, 3 if N < 4 else 2), anyfmt(N), maxr=3 if N < 4 else 2)
             mu = rng.randrange(-N, N)
             mk("orthogonalize", {"mu": mu}, a=a, mu=mu)
-        for _ in range(30 if quick else 200):      # single steps, TT cores only (CP cores: D18, not a batch matter)
+        for _ in range(90 if quick else 600):      # single steps, TT cores only (CP cores: D18, not a batch matter)
             N = rng.randint(2, 4)
             kinds = [("tt", rng.random() < 0.5) for _ in range(N)]
             a = rand_batch_json(rng, rB(), rshape(N, 1, 3 if N < 4 else 2), kinds, maxr=3)
@@ -562,7 +589,7 @@ class Prop:
                 mu = rng.randrange(1, N); mk("right_orthogonalize", {"mu": mu}, a=a, mu=mu)
 
         # ---- 7. indexing
-        for _ in range(420 if quick else 4000):
+        for _ in range(1260 if quick else 12000):
             N = rng.randint(2, 4); B = rB(); shape = rshape(N, 1, 3)
             a = rand_batch_json(rng, B, shape, anyfmt(N), maxr=3 if N < 4 else 2)
             key = self._rand_key(rng, B, shape)
@@ -576,7 +603,7 @@ class Prop:
                     key = [bk] + [{"int": rng.randrange(-s, s)} for s in shape]
                     mk("getitem", self._key_tags(key, a), a=a, key=key)
         # selection along the batch mode only
-        for _ in range(40 if quick else 300):
+        for _ in range(120 if quick else 900):
             N = rng.randint(2, 3); B = rB(); shape = rshape(N)
             a = rand_batch_json(rng, B, shape, anyfmt(N))
             bk = rng.choice([{"int": rng.randrange(-B, B)}, {"slice": [rng.choice([None, 0, 1]), rng.choice([None, B, -1, 1]), rng.choice([None, 1, 2])]},
@@ -593,10 +620,13 @@ class Prop:
                 mk("unsupported", {"name": name, "family": fam, "kf": "" if fam == "guarded" else "no-guard-" + fam}, a=rand_batch_json(rng, B, shape, NAMED[fm](N), maxr=2),
                    b=rand_batch_json(rng, B, shape, NAMED[fm](N), maxr=2), name=name)
         for name in sorted(EITHER):
-            for _ in range(4 if quick else 30):
+            for _ in range(12 if quick else 90):
                 N = rng.randint(2, 3); B = rB(); shape = rshape(N)
                 kinds = anyfmt(N)
-                mk("derived", {"name": name}, a=rand_batch_json(rng, B, shape, kinds, maxr=2),
+                if name == "squeeze":
+                    B = rng.randint(2, 4)
+                kf = "flip-batch" if name == "flip" else "D17" if name == "squeeze" and all(x == 1 for x in shape) else ""
+                mk("derived", {"name": name, "kf": kf}, a=rand_batch_json(rng, B, shape, kinds, maxr=2),
                    b=rand_batch_json(rng, B, shape, anyfmt(N), maxr=2), name=name)
         return cases
 
@@ -772,6 +802,9 @@ class Prop:
                 res = payload(t)
                 res["ranks_tt"] = t.ranks_tt.tolist(); res["ranks_tucker"] = t.ranks_tucker.tolist()
                 res["cp"] = all(c.dim() == 3 for c in t.cores)
+                if case["tags"].get("limits") == "cp2":      # the ordinary constructor on the (common) element
+                    torch.manual_seed(0)
+                    res["single"] = tn.Tensor(X[0], algorithm=case.get("algorithm", "svd"), **case["kw"]).torch().reshape(-1).tolist()
                 return res
             a = to_tnb(case["a"])
             if op == "torch":
@@ -832,6 +865,8 @@ class Prop:
             kw = case["kw"]
             if "eps" in kw:                       # batch rounding to a tolerance: refused, or within eps of each element
                 return out(X, "either", tol=float(kw["eps"]) * 1.01 + 1e-9)
+            if case["tags"].get("limits") == "cp2":
+                return out(X, "ok", tol=1e-6, vs_single=True, cp=2)
             Y = []
             for b in range(len(X)):
                 y = X[b]
@@ -898,7 +933,9 @@ class Prop:
         if res["shape"] is None or list(res["shape"]) != list(exp["shape"]):
             return False, "shape %s, expected %s" % (res["shape"], exp["shape"])
         a = np.array(res["dense"], dtype=np.float64); b = np.array(exp["dense"], dtype=np.float64)
-        if a.size and not np.all(np.isfinite(a)):
+        if a.shape != b.shape:
+            return False, "result has %d entries, expected %d" % (a.size, b.size)
+        if a.size and not (np.all(np.isfinite(a)) and np.all(np.isfinite(b))):
             return False, "non-finite entries in the result"
         for nm, lim in (("ranks_tt", exp.get("max_tt")), ("ranks_tucker", exp.get("max_tucker"))):
             if lim is not None and nm in res:
@@ -907,9 +944,16 @@ class Prop:
                     return False, "%s %s exceed the requested limits %s" % (nm, got, lim)
         if exp.get("cp") is not None and not res.get("cp"):
             return False, "ranks_cp given but the result is not in CP format"
-        if exp.get("dev") is not None and not (res.get("dev", 0.0) <= 1e-8):
+        if exp.get("dev") is not None and not (res.get("dev", float("nan")) <= 1e-8):
             return False, "cores/factors are not orthogonal after orthogonalisation (deviation %g)" % res.get("dev")
         if exp.get("weak"):
+            return True, ""
+        if exp.get("vs_single"):    # ALS is a heuristic: each element must get what the ordinary constructor gives on it
+            single = np.array(res.get("single", []), dtype=np.float64)
+            B = exp["shape"][0]
+            for i, part in enumerate(a.reshape(B, -1)):
+                if not close(part, single, 1e-6):
+                    return False, "element %d differs from the ordinary CP construction of the same data" % i
             return True, ""
         tol = exp.get("tol", 1e-9)
         if a.size:
@@ -922,9 +966,9 @@ class Prop:
                 if case["op"] == "construct" and "eps" in case["kw"]:
                     X = b.reshape(exp["shape"]); R = a.reshape(exp["shape"])
                     for i in range(len(X)):
-                        if np.linalg.norm(R[i] - X[i]) > tol * max(np.linalg.norm(X[i]), 1e-300) + 1e-9:
+                        if not (np.linalg.norm(R[i] - X[i]) <= tol * max(np.linalg.norm(X[i]), 1e-300) + 1e-9):
                             return False, "element %d is farther than eps from the data" % i
-                elif np.max(np.abs(a - b)) > tol * scale:
+                elif not close(a, b, tol):
                     d = np.abs(a - b).reshape(exp["shape"])
                     bad = int(np.argmax(d.reshape(d.shape[0], -1).max(axis=1))) if d.ndim else 0
                     return False, "values differ by %g (batch element %d)" % (np.max(np.abs(a - b)), bad)
